@@ -97,6 +97,8 @@ type menuEntry struct {
 	// the block (the first cell for a table).
 	Target int
 	Pseudo string
+	// Row (tInner entries): when the first inner element is a table cell the declarations go to its row
+	Row bool
 }
 
 // where describes the entry: the declarations and what they apply to.
@@ -152,9 +154,20 @@ var menu = []menuEntry{
 	{Name: "in-opacity", Group: "in-opacity", CSS: "opacity:.5", Target: tInner},
 	{Name: "in-inline-block", Group: "in-display", CSS: "display:inline-block", Target: tInner},
 	{Name: "in-block", Group: "in-display", CSS: "display:block", Target: tInner},
+	// fourth generation: the other atomic inline-level displays of the block, and a forced break on the
+	// first inner element of the block (inner <p>, first <li>, the row of the first cell): a forced break
+	// inside a box that is not in the normal flow of the page (atomic inline, float, positioned box…)
+	{Name: "inline-table", Group: "display", CSS: "display:inline-table"},
+	{Name: "inline-flex", Group: "display", CSS: "display:inline-flex"},
+	{Name: "inline-grid", Group: "display", CSS: "display:inline-grid"},
+	{Name: "in-break-before-page", Group: "in-break-before", CSS: "break-before:page", Target: tInner, Row: true},
+	{Name: "in-break-after-page", Group: "in-break-after", CSS: "break-after:page", Target: tInner, Row: true},
 }
 
 const nMenuQuick = 19
+
+// nMenuGen2: end of the entries of the second generation
+const nMenuGen2 = 32
 
 // menu subsets (indices)
 func menuRange(from, to int) []int {
@@ -180,8 +193,11 @@ func menuNamed(names ...string) []int {
 var (
 	menuGen1Quick = menuRange(0, nMenuQuick)
 	menuGen1      = menuRange(0, nMenuQuick+1)
-	menuGen2      = menuRange(nMenuQuick+1, len(menu))
-	menuAll       = menuRange(0, len(menu))
+	menuGen2      = menuRange(nMenuQuick+1, nMenuGen2)
+	menuAll       = menuRange(0, nMenuGen2)
+	// fourth generation
+	menuInnerBreaks = menuNamed("in-break-before-page", "in-break-after-page")
+	menuGen4        = menuRange(nMenuGen2, len(menu))
 )
 
 // hasInner: the blocks that have an inner element <block>1.
@@ -408,6 +424,19 @@ func (n *node) find(id string) *node {
 	return nil
 }
 
+// parentOf returns the parent of element c in the subtree of n.
+func (n *node) parentOf(c *node) *node {
+	for _, k := range n.kids {
+		if k == c {
+			return n
+		}
+		if r := k.parentOf(c); r != nil {
+			return r
+		}
+	}
+	return nil
+}
+
 // pseudoTarget is the id of the element the pseudo-element rules of block slot select.
 func pseudoTarget(slot, kind int) string {
 	id := string(rune('a' + slot))
@@ -465,7 +494,11 @@ func (d *docSpec) tree() []*node {
 			case tBlock:
 				st = append(st, strings.ReplaceAll(m.CSS, "(hS)", fmt.Sprintf("(h%d)", i)))
 			case tInner:
-				if in := n.find(n.id + "1"); in != nil {
+				in := n.find(n.id + "1")
+				if in != nil && m.Row && in.tag == "td" {
+					in = n.parentOf(in)
+				}
+				if in != nil {
 					if in.style != "" {
 						in.style += ";"
 					}
@@ -626,8 +659,10 @@ func (d *docSpec) flowsOf() *flowMap {
 		return f
 	}
 	get("main", false, "main")
-	var walk func(n *node, cur *flow, inRepeatGroup bool)
-	walk = func(n *node, cur *flow, inRepeatGroup bool) {
+	var walk func(n *node, cur *flow, inRepeatGroup, item bool)
+	// item: the element is a child of a flex or grid container: it is blockified (CSS Flexbox §4, Grid §6.1),
+	// its edges are line boundaries
+	walk = func(n *node, cur *flow, inRepeatGroup, item bool) {
 		outer := "" // kind of the enclosing out-of-flow block
 		if cur.Site != "main" && cur.Site != "cell" && cur.Site != "thead-tfoot" {
 			outer = cur.Site
@@ -668,21 +703,23 @@ func (d *docSpec) flowsOf() *flowMap {
 				fm.pagesBefore[n.id] = true
 			}
 		}
-		if lineBreaker(n) {
+		breaker := item || lineBreaker(n)
+		if breaker {
 			raw[own.Key].WriteString(lineBoundary) // a block boundary is a line boundary
 		}
 		raw[own.Key].WriteString(n.before) // generated content is rendered text of the element
+		container := strings.Contains(n.style, "display:inline-flex") || strings.Contains(n.style, "display:inline-grid")
 		for _, k := range n.kids {
-			walk(k, own, inRepeatGroup)
+			walk(k, own, inRepeatGroup, container)
 		}
 		raw[own.Key].WriteString(n.after)
-		if lineBreaker(n) {
+		if breaker {
 			raw[own.Key].WriteString(lineBoundary)
 		}
 	}
 	for _, n := range d.tree() {
 		raw["main"].WriteString("\n") // the inter-element white space of the source
-		walk(n, fm.flows["main"], false)
+		walk(n, fm.flows["main"], false, false)
 	}
 	for k, f := range fm.flows {
 		f.Want = collapse(raw[k].String())
@@ -874,6 +911,22 @@ func (d *docSpec) features(c pageCfg) []string {
 		set[menu[v.D].Name+">"+kindName[d.Blocks[v.Slot].Kind]] = true
 		if menu[v.D].Name == "in-float" && d.slotHas(v.Slot, "columns") {
 			set["in-float-in-columns"] = true // a float that a column break may split, on any page height
+		}
+	}
+	for i := range d.Blocks {
+		if !d.slotHas(i, "in-break-after-page") {
+			continue
+		}
+		// a forced break after the first inner element of the block (never its last child), on any page height
+		switch eff := d.effKind(i); {
+		case eff == "running":
+		case eff != "":
+			// the out-of-flow box cannot be on one page: it is broken, as a box that does not fit
+			set[eff] = true
+			set["forced-break-in-"+eff] = true
+			set[eff+"-overflows-page"] = true
+		case d.slotHas(i, "inline-block") || d.slotHas(i, "inline-table") || d.slotHas(i, "inline-flex") || d.slotHas(i, "inline-grid"):
+			set["forced-break-in-atomic-inline"] = true
 		}
 	}
 	if c.H == 0 {
